@@ -85,13 +85,16 @@ class MessageSwitchCompileHandler(
             value_blueprint = header_handler.collect()
             # We obviously don't want the bluprint
             value = value_blueprint.params[0]
-            case_ops.append(self._generate_operation(OP_CASE_TEXT, [value, string]))
+            # (registered by the handler of the case, so that the source map points at the case, not at the switch)
+            case_ops.append(h._generate_operation(OP_CASE_TEXT, [value, string]))
         if self._default_handler:
             if not self._default_handler.is_message_case:
                 raise SsbCompilerError(
                     f(_("A message_ switch can only contain cases with strings (line {self.ctx.start.line})."))
                 )
-            case_ops.append(self._generate_operation(OP_DEFAULT_TEXT, [self._default_handler.get_text()]))
+            case_ops.append(
+                self._default_handler._generate_operation(OP_DEFAULT_TEXT, [self._default_handler.get_text()])
+            )
 
         return [switch_op] + case_ops
 
